@@ -570,6 +570,20 @@ def loop_exits(body, head, oc=None):
     return out
 
 
+# std combinators that keep the variant (and so the discriminant) of the Option / Result they are applied to
+_VARIANT_KEEPING = {"map", "as_ref", "as_mut", "cloned", "copied", "as_deref", "as_deref_mut", "inspect", "map_err",
+                    "inspect_err"}
+
+
+def peel_variant_keeping(t):
+    """`x.map(f)`, `x.as_ref()`, … have the variant of `x`: a match on them is a match on `x`."""
+    t = strip_deep(t)
+    while t[0] == "call" and (t[3] or {}).get("name") in _VARIANT_KEEPING and t[2] and \
+            re.match(r"^(std|core)::(option::Option|result::Result)::<", (t[3] or {}).get("fn") or ""):
+        t = strip_deep(t[2][0])
+    return t
+
+
 def variant_switches(body, sym, place_rx):
     """Switch blocks on discriminant(X) where render(X) matches place_rx."""
     rx = re.compile(place_rx)
@@ -579,7 +593,7 @@ def variant_switches(body, sym, place_rx):
         if t["t"] != "switch" or blk.get("cleanup"):
             continue
         d = strip(sym.operand(t["discr"]))
-        if d[0] == "discr" and rx.search(render(strip_deep(d[1]))):
+        if d[0] == "discr" and (rx.search(render(strip_deep(d[1]))) or rx.search(render(peel_variant_keeping(d[1])))):
             out.append(bi)
     return out
 
@@ -630,7 +644,7 @@ def variant_edge(body, sym, bb, place_rx, value):
     if t["t"] != "switch":
         return None
     d = strip(sym.operand(t["discr"]))
-    if d[0] != "discr" or not re.search(place_rx, render(strip_deep(d[1]))):
+    if d[0] != "discr" or not (re.search(place_rx, render(strip_deep(d[1]))) or re.search(place_rx, render(peel_variant_keeping(d[1])))):
         return None
     for v, tb in t["targets"]:
         if v == value:
